@@ -44,15 +44,30 @@ def c06_block_header_comment(case, detail):
             and "expected chomping or indentation indicators, but found '#'" in detail and 'c=accepts' in detail)
 
 
+def _glued_question_in_flow(text):
+    """inside a flow collection (bracket depth > 0), a '?' glued to a neighbour: directly after a character that
+    can be part of a plain scalar, or directly followed by something that is not white space"""
+    depth = 0
+    for i, ch in enumerate(text):
+        if ch in '[{':
+            depth += 1
+        elif ch in ']}':
+            depth = max(0, depth - 1)
+        elif ch == '?' and depth > 0:
+            prev = text[i - 1] if i else ' '
+            nxt = text[i + 1:i + 2]
+            if prev not in ' \n\r,[{' or nxt not in (' ', '\n', '\r', ''):
+                return True
+    return False
+
+
 def c06_flow_question(case, detail):
-    """'?' glued to other characters inside a flow collection: libyaml 0.2.5 always makes it a KEY indicator when it
-    starts a token, never ends a plain scalar at it, and skips the token after an empty flow-sequence key."""
+    """'?' glued to other characters inside a flow collection: libyaml 0.2.5 never ends a plain scalar at '?', and
+    skips the token after an empty flow-sequence key; the Python scanner ends plain scalars at '?' in flow context."""
     t = case.get('input')
     if not (isinstance(t, str) and '?' in t and ('[' in t or '{' in t)):
         return False
-    if "but got '?'" in detail and 'c=accepts' in detail:
-        return True
-    return flowseq_empty_key_text(t)
+    return _glued_question_in_flow(t) or flowseq_empty_key_text(t)
 
 
 def c06_flow_colon_glued(case, detail):
@@ -60,3 +75,15 @@ def c06_flow_colon_glued(case, detail):
     t = case.get('input')
     return (isinstance(t, str) and _re.search(r':[\]\}\[\{,]', t) is not None and "found unexpected ':'" in detail
             and 'py=accepts' in detail)
+
+
+def c02_c_fold_more_indented(case, detail):
+    """LibYAML emitter, folded style requested, some line of the string starts with a space and contains a later
+    space followed by a non-space character (a fold point inside a more-indented line)"""
+    s = case.get('string')
+    if case.get('dumper') != 'c' or (case.get('options') or {}).get('default_style') != '>' or not isinstance(s, str):
+        return False
+    for line in _re.split('[\n\x85\u2028\u2029]', s):
+        if _re.search(r'^ .* [^ ]', line):     # starts with a space; a later space is followed by a non-space
+            return True
+    return False
